@@ -152,7 +152,7 @@ void ezc3d::Header::read(ezc3d::c3d &file)
     // This part loop up to the point no 0 is found
     while (!_parametersAddress){
         _parametersAddress = file.readUint(1*ezc3d::DATA_TYPE::BYTE);
-        if (file.eof())
+        if (file.eof() || file.fail()) // nothing (more) can be read: empty file, all zeros, or not a regular file
             throw std::ios_base::failure("File is empty");
         ++_nbOfZerosBeforeHeader;
     }
